@@ -1,5 +1,7 @@
 package main
 
+import "time"
+
 func rng(lo, hi int64) [][]int64 {
 	var r [][]int64
 	for i := lo; i <= hi; i++ {
@@ -46,6 +48,14 @@ func seq(lo, hi int64) []int64 {
 	var r []int64
 	for i := lo; i <= hi; i++ {
 		r = append(r, i)
+	}
+	return r
+}
+
+func everyOther(lo, hi int64) [][]int64 {
+	var r [][]int64
+	for i := lo; i <= hi; i += 2 {
+		r = append(r, []int64{i})
 	}
 	return r
 }
@@ -154,7 +164,7 @@ func init() {
 		},
 	})
 	register(&Prop{
-		ID:          "C20",
+		ID: "C20", ThoroughBudget: 75 * time.Minute,
 		HarnessDirs: []string{"c20"},
 		Pkg:         "github.com/cloudwego/thriftgo/generator/golang",
 		Diff:        []string{"D_C20_1"},
@@ -166,7 +176,7 @@ func init() {
 			{Func: "H_C20_documented", Covers: []string{"end"}},
 			{Func: "H_C20_value", Quick: c20ValueTuples(3), Thorough: c20ValueTuples(5), Covers: []string{"accepted", "rejected", "invalid"}},
 			{Func: "H_C20_pair", Quick: c20PairTuples(true), Thorough: c20PairTuples(false), Covers: []string{"accepted", "invalid"}},
-			{Func: "H_C20_triple", Quick: [][]int64{{8}, {27}, {28}}, Thorough: rng(0, 48), Covers: []string{"accepted"}},
+			{Func: "H_C20_triple", Quick: [][]int64{{8}, {27}, {28}}, Thorough: everyOther(0, 48), Covers: []string{"accepted"}}, // measured: 76 s per first option on 16 cores
 			{Func: "H_C20_keyed", Quick: tuples(seq(0, 2), seq(0, 8)), Thorough: tuples(seq(0, 2), seq(0, 10)), Covers: []string{"accepted", "rejected"}},
 		},
 	})
